@@ -41,6 +41,8 @@ fn main() {
         "C04" => drive(props::c04::C04, mode, file),
         "C05" => drive(props::c05::C05, mode, file),
         "C11" => drive(props::c11::C11, mode, file),
+        "C13" => drive(props::c13::C13, mode, file),
+        "C14" => drive(props::c14::C14, mode, file),
         "C12" => drive(props::c11::C12, mode, file),
         other => {
             eprintln!("unknown property {}", other);
